@@ -67,18 +67,13 @@ def run(run_, pkg, tier):
     record(run_, tasks, run_tasks(pkg, tasks))
     run_.floor("C04 obligations", len(tasks) if run_.only is None else 20, 20)
     if run_.only is None:
-        oa = optim_rules.analyse(pkg)
-        n = 0
-        for f in oa.findings:
+        def sel(f):
             relevant = f.rule.startswith("C03-d") or f.key.startswith(("C12-T2/first-iteration-solves", "C12-T2/test-before-solve",
                                                                        "C12-T2/early-return", "C12-T1/return", "C12-T1/final_chi2",
                                                                        "C12-T3/one-update-per-iteration"))
             if not relevant:
-                continue
-            n += 1
+                return None
             key = "C04-iii/" + f.key if not f.rule.startswith("C03-d") else "C04-ii/" + f.key
-            if f.ok:
-                run_.ok(key, "C04-iii-one-step-then-report" if key.startswith("C04-iii") else "C04-ii-gauss-newton-step")
-            else:
-                run_.violation(key, "C04-iii-one-step-then-report" if key.startswith("C04-iii") else "C04-ii-gauss-newton-step", f.what, where=f.where)
-        run_.floor("C04 optimize rule instances", n, 12)
+            return key, ("C04-iii-one-step-then-report" if key.startswith("C04-iii") else "C04-ii-gauss-newton-step")
+        n = optim_rules.optimize_verdicts(run_, pkg, "C04", sel)
+        run_.floor("C04 optimize rule instances", n, 10)
